@@ -3,7 +3,7 @@ import seqcheck
 
 
 def knobs(r, i):
-    return {"ops": 20 + r.below(80), "threads": 1 + i % 2, "multi": i % 2 == 0, "unsampled": i % 3 == 0, "late_reporter": i % 7 == 0}
+    return {"ops": 20 + r.below(80), "threads": 1 + i % 2, "multi": i % 2 == 0, "unsampled": i % 3 == 0, "late_reporter": i % 7 == 0, "remote_children": True}
 
 
 def run(v, tier, seed, replay):
